@@ -580,8 +580,43 @@ class _NoErrstate(object):
         return False
 
 
+class _ScimathProxy(object):
+    def __getattr__(self, name):
+        return getattr(np.lib.scimath, name)
+
+    def sqrt(self, x):
+        if not _has_sym(x):
+            return np.lib.scimath.sqrt(x)
+        _hit('numpy.lib.scimath.sqrt')
+
+        def one(e):
+            e = _norm_elem(e)
+            if isinstance(e, SymC):
+                return e.sqrt()
+            if bool(e >= 0):
+                return e.sqrt()
+            return SymC(0, (-e).sqrt())
+        if isinstance(x, (Sym, SymC)):
+            return one(x)
+        p = np.asarray(x).view(np.ndarray)
+        if p.ndim == 0:
+            return one(p[()])
+        r = np.empty(p.shape, dtype=object)
+        for idx in np.ndindex(*p.shape):
+            r[idx] = one(p[idx])
+        return SArr(r)
+
+
+class _LibProxy(object):
+    scimath = _ScimathProxy()
+
+    def __getattr__(self, name):
+        return getattr(np.lib, name)
+
+
 class NumpyProxy(object):
     """stands in for the module `numpy` inside algopy's modules"""
+    lib = _LibProxy()
 
     def __init__(self, stubs):
         self._np = np
